@@ -661,7 +661,7 @@ func TestC13(t *testing.T) {
 		return
 	}
 
-	rapidCheck(t, "sub", tierN(900, 50000), func(rt *rapid.T) {
+	rapidCheck(t, "sub", tierN(1800, 50000), func(rt *rapid.T) {
 		m := int(genMode().Draw(rt, "mode"))
 		switch rapid.SampledFrom([]string{"subgroupx", "computeeval", "computeeval", "finalpoly"}).Draw(rt, "op") {
 		case "subgroupx":
@@ -703,7 +703,7 @@ func TestC13(t *testing.T) {
 			s.exec(rt, "sub", a, "finalPolyEval")
 		}
 	})
-	rapidCheck(t, "combine", tierN(250, 15000), func(rt *rapid.T) {
+	rapidCheck(t, "combine", tierN(500, 15000), func(rt *rapid.T) {
 		a := c13Combine{Mode: int(genMode().Draw(rt, "mode")), Shape: genShape().Draw(rt, "shape")}
 		w := a.Shape.oracleWidths()
 		for tr := 0; tr < 4; tr++ {
@@ -731,7 +731,7 @@ func TestC13(t *testing.T) {
 		}
 		s.exec(rt, "combine", a, class)
 	})
-	rapidCheck(t, "round", tierN(330, 25000), func(rt *rapid.T) {
+	rapidCheck(t, "round", tierN(600, 25000), func(rt *rapid.T) {
 		c := constructRound(rt, rapid.IntRange(0, 3).Draw(rt, "mutate") != 0)
 		c.Mode = int(genMode().Draw(rt, "mode"))
 		rclass := "round/" + c.What
